@@ -23,7 +23,7 @@ RULE = ('cases = (curve, interior knee subset, clustering (linkage+threshold or 
 ASSUMPTIONS = ['clusters are whatever the supplied clustering callable returns (the real linkages are C11\'s)',
                'a cluster whose score vector contains an undefined correlation (constant run of >= 3 points) is skipped',
                'score ties (relative 1e-9) may be resolved either way', 'knees are interior indices (1..n-2), as stated']
-BOUNDS = {'quick': {'curves': 'G12Y013 n=5 complete, Y013 n=6 and A1 n=6 complete', 'knee sets': 'all interior subsets with >=2 members', 'clustering': '4 linkages x t in {0.2,0.5,0.75,1.0} + all 2^(k-1) contiguous labellings'},
+BOUNDS = {'quick': {'curves': 'G12Y013 n=5 complete, Y013 n=6 and A1 n=6 complete', 'knee sets': 'all interior subsets with >=2 members', 'clustering': '4 linkages x t in {0.2,0.5,0.75,1.0} + all 2^(k-1) contiguous labellings', 'deep': 'Y013 n=8, knee sets with >=5 knees, every labelling into 2-3 clusters, hull + linear modes'},
           'thorough': {'curves': 'A12 n=5, A1 n=6, Y013 n=7', 'knee sets': 'all', 'clustering': 'same'}}
 TECHNIQUE = 'bounded-exhaustive enumeration of curves x all knee subsets x clusterings (real linkages and every scripted contiguous labelling) on the real filters; independent exact score recomputation'
 LEVEL_TEXT = ('Model checking: all interior knee subsets of every small curve, every linkage/threshold and - through the callable seam - every contiguous labelling; exactly one '
@@ -39,7 +39,11 @@ def units(tier, seed):
     plan = [('G12Y013', 5, 64), ('Y013', 6, 48), ('A1', 6, 128)] if tier == 'quick' else [('A12', 5, 256), ('A1', 6, 128), ('Y013', 7, 128)]
     b = curves.bonus(seed, curves.Y013)
     plan.append((b.name, 5, 8))
-    return [(prof, n, k, K) for prof, n, K in plan for k in range(K)]
+    u = [(prof, n, k, K, 'all') for prof, n, K in plan for k in range(K)]
+    # deep units: many knees in several clusters (cursor / bookkeeping bugs across clusters need >= 5 knees)
+    deep = [('Y013', 8, 96)] if tier == 'quick' else [('Y013', 8, 96), ('Y013', 9, 256), ('G12Y013', 8, 512)]
+    u += [(prof, n, k, K, 'deep') for prof, n, K in deep for k in range(K)]
+    return u
 
 
 def r2_exact(xs, ys, a, b):
@@ -177,17 +181,21 @@ def labellings(k):
 
 
 def run_unit(unit, res):
-    prof, n, k, K = unit
+    prof, n, k, K, kind = unit
     P = curves.get(prof)
     interior = list(range(1, n - 1))
     ksets = [list(c) for r in range(2, len(interior) + 1) for c in itertools.combinations(interior, r)]
+    if kind == 'deep':
+        ksets = [ks for ks in ksets if len(ks) >= 5]
     first = True
     for i, xs, ys in P.shard(n, k, K):
         H = lower_hull(xs, ys)
         for knees in ksets:
             descs = [('link', ln, t) for ln in LINKS for t in TS] + [('script', lab) for lab in labellings(len(knees))]
+            if kind == 'deep':
+                descs = [('script', lab) for lab in labellings(len(knees)) if 2 <= lab[-1] + 1 <= 3]
             for d in descs:
-                for mode in ('left', 'linear', 'right', 'hull', 'corner'):
+                for mode in (('left', 'linear', 'right', 'hull', 'corner') if kind == 'all' else ('hull', 'linear')):
                     got, fs, nt = check_filter(xs, ys, knees, d, mode, H)
                     res.count('evaluations')
                     res.count('states')
